@@ -28,8 +28,14 @@ def render(h, variant):
         lines.append('class K%d(%s):' % (i, bases))
         body = []
         for a in sorted(h['own'][i - 1]):
-            body.append(('    def %s(self):' % nm[a], ('class', a)))
-            body.append(('        return "%d"' % i, None))
+            if variant.get('cond'):
+                # the same definition under a condition that holds; the module binds the name too (a decoy no lookup on K finds)
+                body.append(('    if COND:', None))
+                body.append(('        def %s(self):' % nm[a], ('class', a)))
+                body.append(('            return "%d"' % i, None))
+            else:
+                body.append(('    def %s(self):' % nm[a], ('class', a)))
+                body.append(('        return "%d"' % i, None))
         if h['selfs'][i - 1]:
             body.append(('    def init%d(self):' % i, None))
             for a in sorted(h['selfs'][i - 1]):
@@ -42,6 +48,8 @@ def render(h, variant):
         mod_of[i] = 'hm1' if (not split or i <= split) else 'hm2'
     for m in mods:
         out = []
+        if variant.get('cond'):
+            out += ['COND = True', 'p = 0', 'q = 0']
         if m == 'hm2':
             if imp == 'from':
                 out.append('from hm1 import ' + ', '.join('K%d' % i for i in range(1, n + 1) if mod_of[i] == 'hm1'))
